@@ -516,7 +516,18 @@ type TypeInv struct {
 	Pkg  string
 }
 
+type Pair struct{ Prop, Fork, Orig string }
+
+type GhostVar struct {
+	Name string
+	Dims int
+	Type string
+	Pkg  string
+}
+
 type ContractSet struct {
+	Pairs     []Pair
+	GhostVars map[string]*GhostVar
 	Funcs     map[string]*Contract // key: pkgname + "." + Key
 	SpecFuncs map[string]*SpecFunc
 	Axioms    map[string]*Axiom
@@ -527,14 +538,14 @@ type ContractSet struct {
 }
 
 func NewContractSet() *ContractSet {
-	return &ContractSet{Funcs: map[string]*Contract{}, SpecFuncs: map[string]*SpecFunc{}, Axioms: map[string]*Axiom{}, TypeInvs: map[string]*TypeInv{}}
+	return &ContractSet{GhostVars: map[string]*GhostVar{}, Funcs: map[string]*Contract{}, SpecFuncs: map[string]*SpecFunc{}, Axioms: map[string]*Axiom{}, TypeInvs: map[string]*TypeInv{}}
 }
 
 var clauseKeywords = map[string]bool{
 	"func": true, "requires": true, "ensures": true, "panics_iff": true, "on_panic": true,
 	"assigns": true, "loop": true, "inline": true, "trusted": true, "classes": true, "pure": true,
 	"property": true, "spec": true, "axiom": true, "lemma": true, "type": true, "let": true, "mode": true,
-	"opt": true, "ghost": true, "callback": true,
+	"opt": true, "ghost": true, "callback": true, "pair": true, "ghostvar": true,
 }
 
 // LoadContracts parses every zz_contracts_verif.go below root.
@@ -801,6 +812,24 @@ func (cs *ContractSet) parseFile(path string) error {
 			if kw == "axiom" {
 				cs.Scan = append(cs.Scan, fmt.Sprintf("%s: axiom %s (definitional equation of a spec function)", pkg, ax.Name))
 			}
+		case "ghostvar":
+			// ghostvar <name> <number of integer indices> <element type>
+			f := strings.Fields(rest)
+			if len(f) != 3 {
+				return fail("ghostvar <name> <indices> <type>")
+			}
+			n, err := strconv.Atoi(f[1])
+			if err != nil {
+				return fail("ghostvar: %v", err)
+			}
+			cs.GhostVars[f[0]] = &GhostVar{Name: f[0], Dims: n, Type: f[2], Pkg: pkg}
+		case "pair":
+			// pair <property> <fork function key> <original function key>
+			f := strings.Fields(rest)
+			if len(f) != 3 {
+				return fail("pair <property> <fork key> <original key>")
+			}
+			cs.Pairs = append(cs.Pairs, Pair{Prop: f[0], Fork: pkg + "." + f[1], Orig: f[2]})
 		case "type":
 			// type Name(recv) invariant expr
 			name, r2 := splitWord(rest)
